@@ -5,7 +5,7 @@
 set -u
 sd=$(readlink -f "$1"); shift
 d=$(mktemp -d /tmp/bbs.XXXXXX)
-rsync -a --exclude .git /repo/ "$d/"
+if [ -n "${BASE:-}" ]; then git -C /repo archive "$BASE" | tar -x -C "$d"; else rsync -a --exclude .git /repo/ "$d/"; fi
 echo "== demo on unchanged copy"; (cd "$d" && PYTHONPATH="$d/blackbird_python" PYTHONDONTWRITEBYTECODE=1 timeout 300 /venv/bin/python "$sd/demo.py" >/dev/null 2>&1; echo "demo exit (unchanged) = $?")
 if ! (cd "$d" && patch --binary -p1 -s < "$sd/patch.diff"); then echo "PATCH FAILED"; rm -rf "$d"; exit 2; fi
 echo "== baseline with patch"; /verif/tools/baseline.py "$d" | head -4
